@@ -96,6 +96,7 @@ func newMemConn(id int, addr string, clock *Log) *MemConn {
 // ---- net.Conn (client side) ----
 
 func (c *MemConn) Read(p []byte) (int, error) {
+	CallTick()
 	for {
 		c.mu.Lock()
 		c.readCalls++
@@ -159,6 +160,7 @@ func (c *MemConn) Read(p []byte) (int, error) {
 }
 
 func (c *MemConn) Write(p []byte) (int, error) {
+	CallTick()
 	for {
 		c.mu.Lock()
 		select {
